@@ -97,6 +97,13 @@ type Node struct {
 	Pos   int        `json:"pos,omitempty"`
 	Sub   *Graph     `json:"sub,omitempty"`
 	Tools []ToolSpec `json:"tools,omitempty"`
+	// node options that put a wrapper around the node's runnable (compose/runnable.go inputKeyed / outputKeyed
+	// ComposableRunnable): OutKey = compose.WithOutputKey("ok:<path>") (the output becomes a map with that one
+	// key), InKey = compose.WithInputKey(<the output key of the node InKey of the previous stage>) (the node
+	// takes that predecessor's output out of the merged map / filters the merged stream for it).  Every error,
+	// error item and panic passes the wrappers as it is: not an input of the model.
+	OutKey bool   `json:"out_key,omitempty"`
+	InKey  string `json:"in_key,omitempty"`
 }
 
 type Graph struct {
@@ -119,6 +126,7 @@ type Case struct {
 	Par          string   `json:"par"`                     // invoke | stream | collect | transform
 	CancelBefore bool     `json:"cancel_before,omitempty"` // context already cancelled at the call
 	Deadline     bool     `json:"deadline,omitempty"`      // ... because its deadline has passed (ctx.Err() is context.DeadlineExceeded, not context.Canceled)
+	Cause        bool     `json:"cause,omitempty"`         // the run's context is made with context.WithCancelCause / WithDeadlineCause and whoever cancels it (the caller before the call, a cancelling node, the passed deadline) gives a cause: ctx.Err() is still context.Canceled / context.DeadlineExceeded and that is what the run's error must match
 	InErr        *ErrSpec `json:"in_err,omitempty"`        // collect/transform: the input stream carries this error item
 	InPos        int      `json:"in_pos,omitempty"`        // ... 0 = after the chunk, 1 = before it, 2 = alone
 	Resume       bool     `json:"resume,omitempty"`        // the graph is compiled with a checkpoint store; while a call ends in an interrupt (a node returned InterruptAndRerun: it succeeds when it is run again) the run is resumed from its checkpoint; the observation is the final one
@@ -383,6 +391,18 @@ func callTime(e *env, n *Node, path []string) error {
 	return nil
 }
 
+// keyOpts: the input-key / output-key options of a node.
+func keyOpts(n *Node, prefix []string) []compose.GraphAddNodeOpt {
+	var o []compose.GraphAddNodeOpt
+	if n.OutKey {
+		o = append(o, compose.WithOutputKey("ok:"+strings.Join(pathOf(prefix, n.Key), "/")))
+	}
+	if n.InKey != "" {
+		o = append(o, compose.WithInputKey("ok:"+strings.Join(pathOf(prefix, n.InKey), "/")))
+	}
+	return o
+}
+
 // hState is the local state of every graph of a case that has a node with a state handler.
 type hState struct{}
 
@@ -635,19 +655,19 @@ func buildChain(e *env, g *Graph, prefix []string) (compilable, error) {
 		path := pathOf(prefix, n.Key)
 		switch n.Kind {
 		case "lam":
-			ch.AppendLambda(lambdaOf(e, n, path), append(handlerOpts(e, n, path), compose.WithNodeKey(n.Key))...)
+			ch.AppendLambda(lambdaOf(e, n, path), append(append(handlerOpts(e, n, path), keyOpts(n, prefix)...), compose.WithNodeKey(n.Key))...)
 		case "sub":
 			sg, err := build(e, n.Sub, path)
 			if err != nil {
 				return nil, err
 			}
-			ch.AppendGraph(sg, compose.WithNodeKey(n.Key), compose.WithGraphCompileOptions(compileOpts(n.Sub)...))
+			ch.AppendGraph(sg, append(keyOpts(n, prefix), compose.WithNodeKey(n.Key), compose.WithGraphCompileOptions(compileOpts(n.Sub)...))...)
 		case "tools":
 			sg, err := toolsGraph(e, n, path)
 			if err != nil {
 				return nil, err
 			}
-			ch.AppendGraph(sg, compose.WithNodeKey(n.Key))
+			ch.AppendGraph(sg, append(keyOpts(n, prefix), compose.WithNodeKey(n.Key))...)
 		default:
 			return nil, fmt.Errorf("bad node kind %q", n.Kind)
 		}
@@ -712,18 +732,18 @@ func buildGraph(e *env, g *Graph, prefix []string) (compilable, error) {
 			var err error
 			switch n.Kind {
 			case "lam":
-				err = cg.AddLambdaNode(n.Key, lambdaOf(e, n, path), handlerOpts(e, n, path)...)
+				err = cg.AddLambdaNode(n.Key, lambdaOf(e, n, path), append(handlerOpts(e, n, path), keyOpts(n, prefix)...)...)
 			case "sub":
 				var sg compilable
 				sg, err = build(e, n.Sub, path)
 				if err == nil {
-					err = cg.AddGraphNode(n.Key, sg, compose.WithGraphCompileOptions(compileOpts(n.Sub)...))
+					err = cg.AddGraphNode(n.Key, sg, append(keyOpts(n, prefix), compose.WithGraphCompileOptions(compileOpts(n.Sub)...))...)
 				}
 			case "tools":
 				var sg *compose.Graph[M, M]
 				sg, err = toolsGraph(e, n, path)
 				if err == nil {
-					err = cg.AddGraphNode(n.Key, sg)
+					err = cg.AddGraphNode(n.Key, sg, keyOpts(n, prefix)...)
 				}
 			default:
 				err = fmt.Errorf("bad node kind %q", n.Kind)
@@ -807,7 +827,10 @@ type Proj struct {
 	MsgPanic  bool `json:"msg_panic,omitempty"`
 	MsgLimit  bool `json:"msg_limit,omitempty"`
 	MsgCancel bool `json:"msg_cancel,omitempty"`
-	full      string
+	// IsCause: errors.Is(err, the cause given to the cancellation) — for the oracle only (the property asks for
+	// the context's own error; the cause may or may not be on the chain)
+	IsCause bool `json:"is_cause,omitempty"`
+	full    string
 }
 
 type Obs struct {
@@ -817,6 +840,9 @@ type Obs struct {
 	Log   []execRec `json:"log,omitempty"`
 	F     *FObs     `json:"f,omitempty"` // forwarder cases
 }
+
+// errCause: the reason given to a cancellation with a cause (context.Cause(ctx); never ctx.Err()).
+var errCause = errors.New("operator pressed abort")
 
 var isTargets = []error{sentinels[0], sentinels[1], compose.ErrExceedMaxSteps, context.Canceled, compose.InterruptAndRerun, schema.ErrRecvAfterClosed}
 
@@ -860,6 +886,7 @@ func project(err error, ctxDone error) *Proj {
 		p.Panic = payloadOf(pi) // -2: a panic value the harness did not throw
 	}
 	_, p.Interrupt = compose.ExtractInterruptInfo(err)
+	p.IsCause = errors.Is(err, errCause)
 	msg := err.Error()
 	p.full = msg
 	if ms := rePath.FindAllStringSubmatch(msg, -1); len(ms) > 0 {
@@ -1024,8 +1051,17 @@ func runOnce(c *Case) (Obs, *Obs) {
 }
 
 func callOnce(c *Case, e *env, r compose.Runnable[M, M]) Obs {
-	ctx, cancel := context.WithCancel(context.Background())
-	defer cancel()
+	var ctx context.Context
+	var cancel context.CancelFunc
+	if c.Cause {
+		// every cancellation of this run gives a reason: context.Cause(ctx) is errCause, ctx.Err() is unchanged
+		cctx, cc := context.WithCancelCause(context.Background())
+		defer cc(nil)
+		ctx, cancel = cctx, func() { cc(errCause) }
+	} else {
+		ctx, cancel = context.WithCancel(context.Background())
+		defer cancel()
+	}
 	e.mu.Lock()
 	e.cancel = cancel
 	e.rerunDone = map[string]bool{}
@@ -1033,7 +1069,11 @@ func callOnce(c *Case, e *env, r compose.Runnable[M, M]) Obs {
 	if c.CancelBefore {
 		if c.Deadline {
 			var cancelD context.CancelFunc
-			ctx, cancelD = context.WithDeadline(ctx, time.Now().Add(-time.Second))
+			if c.Cause {
+				ctx, cancelD = context.WithDeadlineCause(ctx, time.Now().Add(-time.Second), errCause)
+			} else {
+				ctx, cancelD = context.WithDeadline(ctx, time.Now().Add(-time.Second))
+			}
 			defer cancelD()
 		} else {
 			cancel()
@@ -1151,6 +1191,9 @@ func summary(c *Case) string {
 		if c.Deadline {
 			s += " (deadline passed)"
 		}
+	}
+	if c.Cause && (c.CancelBefore || hasBeh(c.G, "cancel")) {
+		s += "; the cancellation gives a cause (context.WithCancelCause / WithDeadlineCause)"
 	}
 	if c.InErr != nil {
 		s += "; error item on the input stream"
